@@ -230,6 +230,8 @@ def ob_history(ctx, K, encs, N):
     for r, (sid, fn, a, k) in zip(recs[1:], script.calls):
         if fn == 'write_meta':
             props.append(('meta', r.get('metadata') == a[0]))
+        if fn == 'write_diff':
+            props.append(('diff', seq_eq(r.get('diff'), a[0])))
     return verdict(ctx, props, witness=wit, sample=lambda m: wit(m))
 
 
@@ -259,6 +261,9 @@ def history_script(ctx, K, encs, N):
         else:
             script.add('..file', 'new_file', **({} if enc is None else {'encoding': enc}))
             script.add('...meta', 'write_meta', {'path': 'f%d' % step, 'note': 'café'})
+            if step % 2 == 0:
+                # a diff right after metadata that was written under the effective encoding: diffs never inherit
+                script.add('...diff', 'write_diff', b'--- a\n+++ b\n@@ -1 +1 @@\n-\xe9\n+\xc3\xa9\n')
             state = 'file'
     if state != 'file':
         if state == 'main':
@@ -380,7 +385,7 @@ def replay(ob, label, w):
                 suffix_for(sid, script)
         else:
             script = Script(w['main_encoding'])
-            sids = {'new_change': '.change', 'new_file': '..file', 'write_preamble': '..preamble', 'write_meta': '...meta'}
+            sids = {'new_change': '.change', 'new_file': '..file', 'write_preamble': '..preamble', 'write_meta': '...meta', 'write_diff': '...diff'}
             for fn, a, k in w['calls']:
                 script.add(sids[fn], fn, *a, **k)
         script.run(DiffXWriter, st)
